@@ -249,11 +249,14 @@ ROUND8 = {
     "C02": " R-C02-VERIFY also carries the Jacobian formula / special-case rows Multiply is built from, and AffineToJacobian.",
     "C08": " R-C08-LATTICE: the bases handed to LLL (GetLattice x 4 kinds of bias with explicit and default weights, precomputed-constants lattice, U2F sub-problem) are read off the source as write tables and must have the rows of the documented basis at sample lengths; R-C08-EXTRACT: guesses are v[1]/v[0] mod n of every usable row, U2F pairs and key formulas; R-C08-SUBSETS: every model of the curve is tried and every generated problem is solved with the order of its curve.",
     "C11": " AffineToJacobian: finite -> (x, y, 1), infinity -> z = 0.",
-    "C12": " Formula rows for the approximate-entropy sum, the normal CDF and the spectral test; R-C12-DEFINED: no local of the statistical modules is read before it is bound (definite assignment).",
+    "C12": " R-C12-OVERLAP: the overlapping-template test (Markov transition matrix as a write table, distribution, tallies, defaults); formula rows for the approximate-entropy sum, the normal CDF, util.Runs, util.Dft and the spectral test; R-C12-DEFINED: no local of the statistical modules is read before it is bound (definite assignment).",
     "C13": " R-C13-SEARCH: FindBiasImpl builds the documented lattice from the training blocks, takes the multiplier from the first usable reduced row and fits / measures with that multiplier; R-C13-DEFINED.",
-    "C18": " R-C18-DEFINED: definite assignment of every local in 156 functions (an unbound local raises instead of returning a boolean).",
+    "C18": " R-C18-DEFINED: definite assignment of every local in 156 functions (an unbound local raises instead of returning a boolean); R-C18-ATTRS: every self.x read is bound by the constructor on all paths; BatchGCD returns one entry per input; lattice-row inverses and table look-ups are guarded.",
     "C19": " R-C19-LINALG: back-substitution, solve_right and the fraction-free elimination (row operations mirrored on b, exact division by the previous pivot, row and pivot sweeps, row moves); R-C19-SIEVE; R-C19-UNIFORMSUM (Irwin-Hall series, reflection, normal approximation).",
-    "C20": " R-C20-DEFINED: definite assignment in rng.py.",
+    "C20": " R-C20-DEFINED: definite assignment in rng.py; R-C20-ATTRS: attributes read through self are bound by the constructor.",
+    "C07": " R-C07-NEIGHBOUR also carries the comparison-list alignment of the difference search and the batch/values agreement of CheckGCD.",
+    "C10": " R-C10-LOOKUP: table entries are read only for candidates found in the table and every hit is verified.",
+    "C16": " GetHighestSeverity hands back the maximum only if it was raised above a start value below every severity, else None.",
 }
 for _pid, _extra in ROUND8.items():
   ROUND7[_pid] = ROUND7.get(_pid, "") + _extra
